@@ -679,13 +679,19 @@ func (g *vGen) volume() []*vEntry {
 func (g *vGen) bantable() []*vEntry {
 	r := g.r
 	var es []*vEntry
-	g.rev++
-	cfg := vCfgEntry(r, 0, 0, g.rev)
-	for !cfg.CfgOk || cfg.Cfg["maxs"].(int64) != 0 || len(cfg.Cfg["opers"].([]interface{})) == 0 ||
-		cfg.Cfg["banned"].(map[string]interface{})["2001:DB8::1"] == nil {
-		cfg = vCfgEntry(r, 0, 0, g.rev)
+	pickCfg := func(withTable bool) *vEntry {
+		g.rev++
+		for {
+			cfg := vCfgEntry(r, 0, 0, g.rev)
+			if !cfg.CfgOk || cfg.Cfg["maxs"].(int64) != 0 || len(cfg.Cfg["opers"].([]interface{})) == 0 {
+				continue
+			}
+			if (cfg.Cfg["banned"].(map[string]interface{})["2001:DB8::1"] != nil) == withTable {
+				return cfg
+			}
+		}
 	}
-	es = append(es, cfg)
+	es = append(es, pickCfg(false))
 	base := g.id
 	for k := 0; k < 3; k++ {
 		es = append(es, &vEntry{T: "create", Data: fmt.Sprintf("auth%04d-secret", base+int64(k)+1), Sup: true, Conf: true})
@@ -700,6 +706,9 @@ func (g *vGen) bantable() []*vEntry {
 	line(b, "USER u2 0 * :Real 2", "")
 	line(a, "OPER op pw", "")
 	line(b, "JOIN #a", "")
+	// the address is listed while its user is connected (a ban only closes sessions whose address changes) ...
+	es = append(es, pickCfg(true))
+	// ... and banned once more by an operator
 	line(a, "GLINE bob :spam", "")
 	line(c, "NICK carol", "2001:db8::1")
 	line(c, "USER u3 0 * :Real 3", "")
